@@ -139,7 +139,44 @@ Theorem C18_delivery_complete : forall tok ev_tok defined fs f c cat,
   In (c, tok) (deliver tok ev_tok (wire defined fs) cat).
 Proof. exact delivery_complete. Qed.
 
+(* ---- how the data directory is spelled ---- *)
+
+(* for every spelling (absolute, relative, through ~, with .. components) the token file,
+   token.tmp and the store are in ONE directory, the one the spelling denotes ... *)
+Theorem C18_state_in_data_dir : forall home cwd s,
+  token_path home cwd s = data_dir home cwd s ++ [TOKEN] /\
+  token_tmp_path home cwd s = data_dir home cwd s ++ [TOKEN_TMP] /\
+  store_path home cwd s = data_dir home cwd s ++ [BADGER_DB].
+Proof. exact state_in_data_dir. Qed.
+
+(* ... so starts whose spellings denote one directory (whatever home and working
+   directory each had) act on the same token file, token.tmp and store: the disk of the
+   history theorems *)
+Theorem C18_same_dir_same_state : forall home cwd home' cwd' s s',
+  resolve home cwd s = resolve home' cwd' s' ->
+  token_path home cwd s = token_path home' cwd' s' /\
+  token_tmp_path home cwd s = token_tmp_path home' cwd' s' /\
+  store_path home cwd s = store_path home' cwd' s'.
+Proof. exact same_dir_same_state. Qed.
+
+Theorem C18_spelling_abs : forall home cwd ns, resolve home cwd (mkSpell false true (map Name ns)) = ns.
+Proof. exact resolve_abs. Qed.
+Theorem C18_spelling_tilde : forall home cwd ns, resolve home cwd (mkSpell true false (map Name ns)) = home ++ ns.
+Proof. exact resolve_tilde. Qed.
+Theorem C18_spelling_relative : forall home cwd ns, resolve home cwd (mkSpell false false (map Name ns)) = cwd ++ ns.
+Proof. exact resolve_rel. Qed.
+Theorem C18_spelling_dotdot : forall home cwd t a cs n,
+  resolve home cwd (mkSpell t a (cs ++ [Name n; Up])) = resolve home cwd (mkSpell t a cs).
+Proof. exact resolve_dotdot. Qed.
+
 (* ---- what each service instance presents ---- *)
+
+(* every instance offers exactly one host key algorithm / certificate type, with the value
+   of C18_presented_identity *)
+Theorem C18_presented_algorithms : forall stored is,
+  presented_algs stored is = map (fun i => [(1%N, presented_spec stored i)]) is.
+Proof. exact presented_algs_spec. Qed.
+
 
 (* for every list of configured instances (any kinds, any number of instances sharing one
    stored identity, any construction order) every instance presents the stored identity,
@@ -166,6 +203,14 @@ Theorem C18_check_consistent : forall c,
 Proof. exact check_consistent. Qed.
 
 (* ---- non-vacuity ---- *)
+Example C18_spelling_nonvacuous :
+  let home := [1; 2]%N in let cwd := [3; 4; 5]%N in
+  resolve home cwd (mkSpell true false [Name 7; Name 8]) = [1; 2; 7; 8]%N /\
+  resolve home cwd (mkSpell false true [Name 1; Name 9; Up; Name 2; Name 7; Name 8]) = [1; 2; 7; 8]%N /\
+  resolve [3;4]%N cwd (mkSpell false false [Up; Name 6]) = [3; 4; 6]%N /\
+  token_path home cwd (mkSpell true false [Name 7]) = [1; 2; 7; 1000]%N.
+Proof. vm_compute. repeat split; reflexivity. Qed.
+
 Example C18_delivery_nonvacuous :
   let fs := [mkFilt [1] [10]; mkFilt [1; 2; 9] [11]; mkFilt [2; 1] []]%N in
   deliver [7]%N [] (wire [1; 2]%N fs) 11 = [(1, [7]); (2, [7]); (2, [7]); (1, [7])]%N /\
@@ -240,6 +285,13 @@ Print Assumptions C18_token_stable_with_failed_starts.
 Print Assumptions C18_items_stable_with_failed_starts.
 Print Assumptions C18_delivered_token.
 Print Assumptions C18_delivery_complete.
+Print Assumptions C18_state_in_data_dir.
+Print Assumptions C18_same_dir_same_state.
+Print Assumptions C18_spelling_abs.
+Print Assumptions C18_spelling_tilde.
+Print Assumptions C18_spelling_relative.
+Print Assumptions C18_spelling_dotdot.
+Print Assumptions C18_presented_algorithms.
 Print Assumptions C18_presented_identity.
 Print Assumptions C18_presented_stored.
 Print Assumptions C18_check_consistent.
